@@ -29,6 +29,7 @@ SIG_FRAME = 'C03:frame'              # something outside one window / outside th
 SIG_SIBLING = 'C03:sibling-text'     # a sibling's text changed
 SIG_CHANGED = 'C03:changed-token'    # a token that is neither the child's nor a separator appeared/disappeared
 SIG_LAYOUT = 'C03:layout'            # items of a repeated field no longer separated by separators only
+SIG_VIEW = 'C03:view-addressed-element'   # a value-level call changed something else than the addressed element
 SIG_ATOMIC = 'C19:refusal-not-atomic'
 SIG_REUSE = 'C19:reuse-accepted'                 # an attached node was accepted
 SIG_REUSE_CHILD = 'C19:reuse-accepted:child-spanning-free-parent'   # D15 (known finding)
@@ -153,18 +154,33 @@ def pool():
                     for i, c in enumerate(ch):
                         index.setdefault((type(n).__name__, name), []).append(
                             [k, path + ([[name, i]] if kind == 'rep' else [[name]])])
-        _POOL = (roots, index)
+        # children that touch exactly one end of an ancestor's span (attached donors a boundary test must catch)
+        edge = {}
+        for key, refs in index.items():
+            for k, path in refs:
+                try:
+                    node = resolve(roots[k], path)
+                    for j in range(len(path) - 1, 0, -1):
+                        anc = resolve(roots[k], path[:j])
+                        if not is_tree(anc):
+                            continue
+                        if (node.first_token is anc.first_token) != (node.last_token is anc.last_token):
+                            edge.setdefault(key, []).append([k, path[:j], path[j:]])
+                            break
+                except Exception:
+                    continue
+        _POOL = (roots, index, edge)
     return _POOL
 
 
 def pool_node(ref):
-    roots, _ = pool()
+    roots = pool()[0]
     return resolve(roots[ref[0]], ref[1])
 
 
 def gen_donor(rng, root, parent, name, kind, want_bad):
     """a donor descriptor for slot (parent, name); want_bad: prefer one that must be refused"""
-    _, index = pool()
+    index = pool()[1]
     key = (type(parent).__name__, name)
     refs = index.get(key, [])
     local = []
@@ -225,7 +241,7 @@ def make_donor(root, d, made):
     if k == 'popped':
         # pop the node out of a private copy of its parent list
         k0, path = d['ref']
-        roots, _ = pool()
+        roots = pool()[0]
         parent = copy.deepcopy(resolve(roots[k0], path[:-1]))
         w = getattr(parent, path[-1][0])
         v = w.pop(path[-1][1])
@@ -234,7 +250,7 @@ def make_donor(root, d, made):
         # D15: a child whose span is the whole store of its free-standing parent
         if k == 'child_span':
             k0, path = d['ref']
-            roots, _ = pool()
+            roots = pool()[0]
             parent = copy.deepcopy(resolve(roots[k0], path))
         else:
             parent = copy.deepcopy(resolve(root, d['path']))
@@ -248,9 +264,13 @@ def make_donor(root, d, made):
     if k == 'child_of_copy':
         # a child of a free-standing private copy of its parent: attached (it usually starts or ends the store)
         k0, path = d['ref']
-        roots, _ = pool()
+        roots = pool()[0]
         parent = copy.deepcopy(resolve(roots[k0], path[:-1]))
         return resolve(parent, path[-1:]), parent
+    if k == 'edge_child':
+        k0, anc_path, rel = d['ref']
+        parent = copy.deepcopy(resolve(pool()[0][k0], anc_path))
+        return resolve(parent, rel), parent
     if k == 'dup':
         return made[d['of']]
     raise ValueError(k)
@@ -414,15 +434,34 @@ def call(root, op, want_corr=True):
             case = dict(doc=cdoc, items=citems, ph=ph, seps=seps, sepsb=sepsb, donors=cdonors, fresh=fresh)
     except Exception:
         case = None
+    # ---- reference for value-level views: the raw list and the positions the view addresses
+    vref = None
+    if op.get('view'):
+        try:
+            vw = getattr(parent, name)
+            rawl = list(getattr(parent, op['raw']))
+            T = vw._raw_type
+            vref = (rawl, [k for k, it in enumerate(rawl) if isinstance(it, T)], T,
+                    {id(it): node_text(it) for it in rawl})
+        except Exception:
+            vref = None
     # ---- the call
     exn = None
     result = None
     try:
         k = op['op']
-        if k in ('set_opt', 'set_req'):
+        if k == 'touch':
+            for vn in op['views']:
+                w = getattr(parent, vn)
+                len(w)
+                list(w)
+        elif k in ('claim_inter', 'unclaim_inter'):
+            w = getattr(parent, name)
+            (w.claim_interleaving_comments if k == 'claim_inter' else w.unclaim_interleaving_comments)(values)
+        elif k in ('set_opt', 'set_req'):
             setattr(parent, name, values[0] if values else None)
         elif k == 'set_value':
-            setattr(parent, name, op['value'])
+            setattr(parent, name, _decode(op['value'], op.get('vtype')))
             raw_slot = op.get('raw', name)
         elif k == 'raw_text':
             tok = getattr(parent, name)
@@ -430,7 +469,7 @@ def call(root, op, want_corr=True):
         else:
             w = getattr(parent, name)
             raw_slot = op.get('raw', name)
-            vals = values if not op.get('plain') else op['values']
+            vals = values if not op.get('plain') else [_decode(x, op.get('vtype')) for x in op['values']]
             sl = (lambda s: slice(s[0], s[1], s[2]))
             if k == 'setitem':
                 w[op['i']] = vals[0]
@@ -469,7 +508,7 @@ def call(root, op, want_corr=True):
     # ---- state after
     T1 = list(store)
     rec = {'exn': type(exn).__name__ if exn else None, 'findings': findings, 'case': None,
-           'bad_donor': any(d['k'] in ('attached_doc', 'attached_pool') or (d['k'] == 'child_of_copy' and not sp)
+           'bad_donor': any(d['k'] in ('attached_doc', 'attached_pool') or (d['k'] in ('child_of_copy', 'edge_child') and not sp)
                             for d, sp in zip(op.get('donors', []), spans)),
            'child_span': any(d['k'] in ('child_span', 'child_span_doc', 'child_of_copy') and v is not r and sp
                              for d, (v, r), sp in zip(op.get('donors', []), made, spans))}
@@ -521,9 +560,74 @@ def call(root, op, want_corr=True):
         elif rec['child_span']:
             findings.append((SIG_REUSE_CHILD, f'{op["op"]} on {type(parent).__name__}.{name} accepted a child of a free-standing parent '
                                               f'({type(values[0]).__name__} spanning the whole store of {type(droots[0]).__name__})'))
-        else:
+        elif not op.get('nomon'):
             _frame_monitor(findings, op, parent, name, raw_slot, T0, T1, texts0, pf0, pl0, ch0, values, result)
+            if vref is not None:
+                try:
+                    _view_monitor(findings, op, parent, name, vref)
+                except Exception as e:
+                    findings.append((SIG_VIEW, f'{op["op"]} on {type(parent).__name__}.{name}: the raw list is unreadable afterwards ({type(e).__name__})'))
     return rec
+
+
+def _decode(v, vtype):
+    if v is None or vtype is None:
+        return v
+    if vtype == 'decimal':
+        return decimal.Decimal(v)
+    if vtype == 'date':
+        return datetime.date.fromisoformat(v)
+    return v
+
+
+def _view_monitor(findings, op, parent, name, vref):
+    """a value-level call changes exactly the element(s) it addresses: reference = the raw list before the
+    call and the positions of the view's type in it (recomputed from the list, not from the view's cache)"""
+    ref, pos, T, texts = vref
+    cur = list(getattr(parent, op['raw']))
+    where = f'{op["op"]} on {type(parent).__name__}.{name}'
+    k = op['op']
+    n = len(pos)
+    refids = [id(x) for x in ref]
+    curids = [id(x) for x in cur]
+    targets = None            # raw positions the call may touch
+    if k in ('setitem', 'pop', 'delitem') and op.get('i') is not None or k == 'pop':
+        i = op.get('i')
+        i = -1 if i is None else i
+        if -n <= i < n:
+            targets = [pos[i]]
+    elif k in ('setslice', 'delslice'):
+        targets = [pos[i] for i in range(n)[slice(*op['s'])]]
+    elif k == 'clear':
+        targets = list(pos)
+    elif k in ('remove', 'discard', 'map_del', 'map_pop', 'map_set'):
+        targets = list(pos)     # some element(s) of the view's type
+    elif k in ('insert', 'append', 'extend', 'touch'):
+        targets = []
+    if targets is None:
+        return
+    tset = set(targets)
+    keep = [refids[j] for j in range(len(ref)) if j not in tset]
+    surv = [x for x in curids if x in set(refids) and x in set(keep)]
+    if surv != keep:
+        findings.append((SIG_VIEW, f'{where}: elements other than the addressed one(s) were removed or reordered'))
+        return
+    for it in cur:
+        if id(it) in texts and id(it) in set(keep) and node_text(it) != texts[id(it)]:
+            findings.append((SIG_VIEW, f'{where}: an element that was not addressed changed its text ({texts[id(it)]!r} -> {node_text(it)!r})'))
+            return
+    if k in ('pop', 'delitem', 'delslice', 'clear'):
+        gone = [refids[j] for j in targets]
+        if any(g in set(curids) for g in gone):
+            findings.append((SIG_VIEW, f'{where}: the addressed element is still in the list'))
+        elif len(cur) != len(ref) - len(targets):
+            findings.append((SIG_VIEW, f'{where}: {len(ref) - len(cur)} elements disappeared, {len(targets)} were addressed'))
+    if k in ('setitem', 'setslice') and len(cur) != len(ref):
+        findings.append((SIG_VIEW, f'{where}: the list changed its length'))
+    if k in ('insert', 'append', 'extend'):
+        new = [x for x in cur if id(x) not in set(refids)]
+        if any(not isinstance(x, T) for x in new) or len(cur) - len(ref) != len(new):
+            findings.append((SIG_VIEW, f'{where}: unexpected elements appeared'))
 
 
 def _is_current(parent, name, kind, values, ch0):
@@ -641,8 +745,251 @@ def rand_slice(rng, n):
 VALUE_LISTS = {'tags': ['t1', 'new-tag', 'x/y'], 'links': ['l1', 'new-link'], 'currencies': ['XYZ', 'AB', 'JPY']}
 RAW_OF = {'tags': 'raw_tags_links', 'links': 'raw_tags_links', 'currencies': 'raw_currencies',
           'meta': 'raw_meta_with_comments', 'raw_meta': 'raw_meta_with_comments'}
-BAD_RAW_TEXT = {'Date': 'zzz', 'Number': 'abc', 'Bool': 'maybe', 'EscapedString': 'no quotes', 'BlockComment': 'no semicolon',
-                'InlineComment': 'x', 'MetaKey': 'nokey', 'Tag': 'notag', 'Link': 'nolink', 'Null': 'NOPE'}
+BAD_RAW_TEXT = {'Date': ['zzz', '2021-02-30', '2021-13-01', '20210101'], 'Number': ['abc', 'x', '1..2', ''],
+                'Bool': ['maybe'], 'EscapedString': ['no quotes'], 'BlockComment': ['no semicolon'],
+                'InlineComment': ['x'], 'MetaKey': ['nokey'], 'Tag': ['notag'], 'Link': ['nolink'], 'Null': ['NOPE']}
+
+VIEWS = {'raw_tags_links': ['tags', 'links'], 'raw_currencies': ['currencies'],
+         'raw_postings_with_comments': ['raw_postings', 'postings'], 'raw_meta_with_comments': ['raw_meta', 'meta'],
+         'raw_values': ['values'], 'raw_directives_with_comments': ['raw_directives', 'directives']}
+PLAIN_VALUES = {'tags': ['t1', 'new-tag', 'x/y'], 'links': ['l1', 'new-link'], 'currencies': ['XYZ', 'AB', 'JPY'],
+                'values': ['str', 'other', True, False]}
+NODE_VIEWS = ('raw_postings', 'postings', 'raw_meta', 'raw_directives', 'directives')
+
+
+def views_of(parent, raw):
+    return [v for v in VIEWS.get(raw, []) if hasattr(type(parent), v)]
+
+
+def typed_donor(rng, root, parent, raw, T, want_bad):
+    """a donor for slot (parent, raw) whose type fits the view type T"""
+    for _ in range(8):
+        d = gen_donor(rng, root, parent, raw, 'rep', want_bad)
+        if d is None:
+            return None
+        try:
+            v, _r = make_donor(root, d, [])
+        except Exception:
+            continue
+        if isinstance(v, T):
+            return d
+    return None
+
+
+def edge_batch(rng, root, parent, raw, T=None):
+    """a batch of free copies with one attached value that touches one end of its store, at a random position"""
+    edge = pool()[2].get((type(parent).__name__, raw), [])
+    if T is not None:
+        edge = [e for e in edge if isinstance(resolve(resolve(pool()[0][e[0]], e[1]), e[2]), T)]
+    if not edge:
+        return None
+    m = rng.choice([1, 2, 2, 3])
+    ds = []
+    for j in range(m):
+        d = typed_donor(rng, root, parent, raw, T or object, False)
+        if d is None:
+            return None
+        ds.append(d)
+    ds[rng.randrange(m)] = {'k': 'edge_child', 'ref': rng.choice(edge)}
+    return ds
+
+
+def gen_view_step(rng, root, path, raw):
+    """one call on the repeated field `raw` of the node at `path`: raw level or through one of its views"""
+    parent = resolve(root, path)
+    vs = views_of(parent, raw)
+    if vs and rng.random() < 0.55:
+        view = rng.choice(vs)
+        w = getattr(parent, view)
+        n = len(w)
+        base = {'parent': path, 'attr': view, 'kind': 'val', 'raw': raw, 'view': True}
+        if view in ('meta',) and rng.random() < 0.5:
+            keys = list(w.keys())
+            k = rng.choice(['map_set', 'map_del', 'map_pop'])
+            key = rng.choice(keys + ['missing-key']) if keys else 'missing-key'
+            return {**base, 'plain': True, 'op': k, 'key': key, 'values': ['v'] if k == 'map_set' else []}
+        if view in NODE_VIEWS or view == 'meta':
+            T = w._raw_type
+            k = rng.choice(['setitem', 'setslice', 'pop', 'delitem', 'delslice', 'insert', 'append', 'extend', 'clear'])
+            bad = rng.random() < 0.2
+            if k in ('setslice', 'extend') and rng.random() < 0.35:
+                ds = edge_batch(rng, root, parent, raw, T)
+                if ds is not None:
+                    s_ = rand_slice(rng, n)
+                    if k == 'setslice':
+                        try:
+                            m = len(range(n)[slice(*s_)])
+                        except ValueError:
+                            m = 0
+                        while len(ds) < m:
+                            d = typed_donor(rng, root, parent, raw, T, False)
+                            if d is None:
+                                break
+                            ds.append(d)
+                        ds = ds[:m] if m and any(d['k'] == 'edge_child' for d in ds[:m]) else ds
+                        return {**base, 'op': k, 's': s_, 'donors': ds}
+                    return {**base, 'op': k, 'donors': ds}
+            if k in ('setitem', 'insert', 'append'):
+                d = typed_donor(rng, root, parent, raw, T, bad)
+                if d is None:
+                    return None
+                o = {**base, 'op': k, 'donors': [d]}
+                if k != 'append':
+                    o['i'] = rand_index(rng, n)
+                return o
+            if k in ('setslice', 'extend'):
+                s_ = rand_slice(rng, n)
+                try:
+                    m = len(range(n)[slice(*s_)])
+                except ValueError:
+                    m = 1
+                if k == 'extend':
+                    m = rng.choice([0, 1, 2])
+                elif rng.random() < 0.25:
+                    m += 1                     # size mismatch: must be refused
+                ds = []
+                for j in range(m):
+                    d = typed_donor(rng, root, parent, raw, T, bad and rng.random() < 0.5)
+                    if d is None:
+                        return None
+                    ds.append(d)
+                o = {**base, 'op': k, 'donors': ds}
+                if k == 'setslice':
+                    o['s'] = s_
+                return o
+            if k in ('pop', 'delitem'):
+                return {**base, 'op': k, 'i': rand_index(rng, n), 'donors': []}
+            if k == 'delslice':
+                return {**base, 'op': k, 's': rand_slice(rng, n), 'donors': []}
+            return {**base, 'op': k, 'donors': []}
+        vals = PLAIN_VALUES[view]
+        k = rng.choice(['append', 'insert', 'pop', 'delitem', 'delslice', 'setitem', 'setitem', 'setslice', 'extend',
+                        'remove', 'discard'])
+        base = {**base, 'plain': True, 'op': k}
+        if k in ('append', 'remove', 'discard'):
+            existing = [x for x in list(w) if isinstance(x, (str, bool))]
+            return {**base, 'values': [rng.choice(vals + existing)]}
+        if k in ('insert', 'setitem'):
+            return {**base, 'i': rand_index(rng, n), 'values': [rng.choice(vals)]}
+        if k in ('pop', 'delitem'):
+            return {**base, 'i': rand_index(rng, n), 'values': []}
+        if k == 'delslice':
+            return {**base, 's': rand_slice(rng, n), 'values': []}
+        if k == 'setslice':
+            s_ = rand_slice(rng, n)
+            try:
+                m = len(range(n)[slice(*s_)])
+            except ValueError:
+                m = 1
+            m = m if rng.random() < 0.7 else m + 1
+            return {**base, 's': s_, 'values': [rng.choice(vals) for _ in range(m)]}
+        return {**base, 'values': [rng.choice(vals) for _ in range(rng.randint(0, 3))]}
+    # raw level on the same field
+    w = getattr(parent, raw)
+    n = len(w)
+    base = {'parent': path, 'attr': raw, 'kind': 'rep'}
+    k = rng.choice(['setitem', 'setslice', 'setslice', 'delitem', 'delslice', 'insert', 'append', 'extend', 'pop'])
+    bad = rng.random() < 0.15
+    if k in ('setslice', 'extend') and rng.random() < 0.3:
+        ds = edge_batch(rng, root, parent, raw)
+        if ds is not None:
+            o = {**base, 'op': k, 'donors': ds}
+            if k == 'setslice':
+                o['s'] = rand_slice(rng, n)[:2] + [rng.choice([None, 1])]
+            return o
+    if k in ('setitem', 'insert', 'append'):
+        d = gen_donor(rng, root, parent, raw, 'rep', bad)
+        if d is None:
+            return None
+        o = {**base, 'op': k, 'donors': [d]}
+        if k != 'append':
+            o['i'] = rand_index(rng, n)
+        return o
+    if k in ('setslice', 'extend'):
+        # step-1 slices with stop < start included (range(n)[3:1])
+        a, b = rng.randint(0, n + 1), rng.randint(0, n + 1)
+        s_ = [a, b, rng.choice([None, 1])] if rng.random() < 0.6 else rand_slice(rng, n)
+        ds = []
+        for j in range(rng.choice([0, 1, 1, 2])):
+            d = gen_donor(rng, root, parent, raw, 'rep', bad and rng.random() < 0.5)
+            if d is None:
+                return None
+            ds.append(d)
+        o = {**base, 'op': k, 'donors': ds}
+        if k == 'setslice':
+            o['s'] = s_
+        return o
+    if k in ('delitem', 'pop'):
+        return {**base, 'op': k, 'i': rand_index(rng, n), 'donors': []}
+    return {**base, 'op': k, 's': rand_slice(rng, n), 'donors': []}
+
+
+def view_targets(root):
+    out = []
+    for path, n in walk(root):
+        for name, kind, _ in slots_of(n):
+            if kind == 'rep' and views_of(n, name):
+                out.append((path, name))
+    return out
+
+
+# ---- cost specs: illegal combinations must be refused with nothing changed --------------------------
+COST_FORMS = ['{{500.00}}', '{500.00}', '{{500.00 USD}}', '{500.00 USD}', '{1 # 2 USD}', '{USD}', '{{USD}}', '{}', '{{}}',
+              '{2020-01-01}', '{"lbl"}', '{{3 # 4 EUR}}', '{*}', '{1.5, 2020-01-01}']
+
+
+def cost_ledger(rng):
+    lines = []
+    for d in range(rng.choice([1, 2])):
+        lines.append('2000-01-0%d * "t"\n' % (d + 1))
+        for j in range(rng.choice([1, 2, 3])):
+            lines.append('    Assets:A%d  10 HOOL %s\n' % (j, rng.choice(COST_FORMS)))
+        lines.append('    Assets:Cash\n')
+    return ''.join(lines)
+
+
+def gen_cost_op(rng, root):
+    specs = []
+    for path, n in walk(root):
+        if type(n).__name__ == 'CostSpec':
+            specs.append(path)
+    if not specs:
+        return None
+    path = rng.choice(specs)
+    prop = rng.choice(['number_per', 'number_per', 'number_total', 'number_total', 'currency'])
+    if prop == 'currency':
+        return {'parent': path, 'attr': prop, 'kind': 'val', 'op': 'set_value', 'nomon': True,
+                'value': rng.choice([None, 'EUR', 'USD'])}
+    return {'parent': path, 'attr': prop, 'kind': 'val', 'op': 'set_value', 'nomon': True, 'vtype': 'decimal',
+            'value': rng.choice([None, '3', '7.25'])}
+
+
+def gen_comment_op(rng, root):
+    """claim / unclaim interleaving comments with a comment that is not there"""
+    models = _mods()[0]
+    cands = []
+    comments = []
+    for path, n in walk(root):
+        for name, kind, _ in slots_of(n):
+            if kind == 'rep' and hasattr(getattr(n, name), 'claim_interleaving_comments'):
+                cands.append((path, name))
+            if kind == 'rep':
+                for i, c in enumerate(getattr(n, name)):
+                    if type(c).__name__ == 'BlockComment':
+                        comments.append(path + [[name, i]])
+    if not cands:
+        return None
+    path, name = rng.choice(cands)
+    ds = []
+    if comments and rng.random() < 0.6:
+        ds.append({'k': 'attached_doc', 'path': rng.choice(comments)})
+    refs = [r for key, rs in pool()[1].items() for r in rs if key[1] in ('raw_leading_comment', 'raw_trailing_comment')]
+    if refs and (not ds or rng.random() < 0.5):
+        ds.append({'k': rng.choice(['copy', 'attached_pool']), 'ref': rng.choice(refs)})
+    if not ds:
+        return None
+    return {'parent': path, 'attr': name, 'kind': 'cmt', 'op': rng.choice(['claim_inter', 'unclaim_inter']), 'donors': ds,
+            'nomon': True}
 
 
 def gen_op(rng, root):
@@ -700,6 +1047,10 @@ def gen_op(rng, root):
             if k == 'extend':
                 return {**base, 'values': [rng.choice(vals) for _ in range(rng.randint(0, 3))]}
             return {**base, 'values': []}
+        if r < 0.235:
+            o = gen_comment_op(rng, root)
+            if o is not None:
+                return o
         # raw_text of a value token (refusals) ---------------------------------------------------
         if r < 0.27:
             toks = [(n, k) for n, k, _ in slots_of(parent) if k in ('opt', 'req')]
@@ -707,7 +1058,8 @@ def gen_op(rng, root):
             for n, k in toks:
                 c = getattr(parent, n)
                 if c is not None and not is_tree(c) and type(c).__name__ in BAD_RAW_TEXT:
-                    return {'parent': path, 'attr': n, 'kind': 'tok', 'op': 'raw_text', 'value': BAD_RAW_TEXT[type(c).__name__]}
+                    return {'parent': path, 'attr': n, 'kind': 'tok', 'op': 'raw_text',
+                            'value': rng.choice(BAD_RAW_TEXT[type(c).__name__])}
             continue
         # node level ---------------------------------------------------------------------------
         sl = slots_of(parent)
@@ -763,6 +1115,13 @@ def gen_op(rng, root):
             if k != 'append':
                 o['i'] = rand_index(rng, n)
             return o
+        if k in ('setslice', 'extend') and rng.random() < 0.12:
+            ds = edge_batch(rng, root, parent, name)
+            if ds is not None:
+                o = {**base, 'op': k, 'donors': ds}
+                if k == 'setslice':
+                    o['s'] = rand_slice(rng, n)[:2] + [rng.choice([None, 1])]
+                return o
         if k == 'setslice':
             s = rand_slice(rng, n)
             try:
@@ -870,15 +1229,31 @@ def run_slots(ctx: common.Ctx, props, n_docs: int, n_ops: int):
                 reported.add(sig)
                 ctx.monitor_failure(sig, what, {'text': text, 'script': script})
     for di in range(n_docs):
-        text = gen_docs.ledger(rng, n_dir=rng.choice([1, 2, 3, 4, 6]))
+        mode = rng.choice(['general', 'general', 'general', 'views', 'views', 'cost'])
+        text = cost_ledger(rng) if mode == 'cost' else gen_docs.ledger(rng, n_dir=rng.choice([1, 2, 3, 4, 6]))
         root = gen_docs.parse_ok(text)
         if root is None:
             continue
-        ctx.dist('docs')
+        target = None
+        if mode == 'views':
+            tg = view_targets(root)
+            if not tg:
+                mode = 'general'
+            else:
+                target = rng.choice(tg)
+        ctx.dist('docs:' + mode)
         script = []
-        for oi in range(n_ops):
+        for oi in range(n_ops if mode != 'views' else rng.randint(4, 7)):
             try:
-                op = gen_op(rng, root)
+                if mode == 'views' and oi == 0:
+                    op = {'parent': target[0], 'attr': target[1], 'kind': 'val', 'op': 'touch', 'raw': target[1],
+                          'views': views_of(resolve(root, target[0]), target[1])}
+                elif mode == 'views':
+                    op = gen_view_step(rng, root, target[0], target[1])
+                elif mode == 'cost':
+                    op = gen_cost_op(rng, root) if rng.random() < 0.8 else gen_op(rng, root)
+                else:
+                    op = gen_op(rng, root)
             except Exception:
                 op = None
             if op is None:
